@@ -30,6 +30,11 @@ theorem header_preemption_keywords :
 /-- the return attributes that are bare keywords (enum.ReturnAttr has no zero member) -/
 theorem header_retattr_keywords : sameSet (Core3.kRetAttr.map b256) (Enums.ReturnAttr.map (·.2.1)) = true := by decide +kernel
 
+/-- the parameter attributes that are bare keywords: all of enum.ParamAttr but `allocalign` and `allocptr`, which the fragment leaves out (behind a type, ` a` is how ` addrspace(` starts) -/
+theorem header_paramattr_keywords :
+    sameSet (Core3.kParamAttr.map b256) ((Enums.ParamAttr.map (·.2.1)).filter (fun n => n != b256 [97, 108, 108, 111, 99, 97, 108, 105, 103, 110] && n != b256 [97, 108, 108, 111, 99, 112, 116, 114])) = true := by
+  decide +kernel
+
 /-- the clauses behind the parameter list: `unnamed_addr` / `local_unnamed_addr` and the function attributes that are bare keywords -/
 theorem header_unnamed_keywords : sameSet (Core3.kUnnamed.map b256) (tableKeywords Enums.UnnamedAddr) = true := by decide +kernel
 /-- (enum.FuncAttr has no zero member `none`: all its members are keywords) -/
